@@ -33,6 +33,10 @@ func vxKey(tag string) []byte {
 	return k
 }
 
+func vxBound1(tag string) []byte {
+	return vx.Bytes(tag, vx.Choice(tag+".len", 2))
+}
+
 func vxModelPut(m []vxKV, k, v []byte) []vxKV {
 	for i := range m {
 		if bytes.Equal(m[i].k, k) {
@@ -311,7 +315,10 @@ func VxC15MemoryBatch() {
 				vx.Assert(b.Delete(k) == nil, "batch-delete-ok")
 				view = vxModelDel(view, k)
 			case 2:
-				s, e := vxKey("s"), vxKey("e")
+				// range bounds of length 0..1 (a batch keeps range tombstones since fix KF-C15-3 and
+				// applies them to every key of the database at Write: bounds of length 2 against keys of
+				// length 2 exceed the path budget; inside / outside / at-the-bound cases are all reachable)
+				s, e := vxBound1("s"), vxBound1("e")
 				vx.Assert(b.DeleteRange(s, e) == nil, "batch-deleterange-ok")
 				view = vxModelDelRange(view, s, e)
 				vx.Cover("batch-delete-range")
